@@ -63,10 +63,11 @@ class Violation(Exception):
         self.script = script
 
 
-UB_KINDS_FATAL = ("null pointer", "out of bounds", "shift exponent", "signed integer overflow",
-                  "which is declared to never be null", "member access within null", "member call on null",
-                  "applying non-zero offset", "applying zero offset to null", "load of null", "store to null",
-                  "reference binding to null", "left shift of")
+UB_KINDS_FATAL = ("member access within null", "member call on null", "load of null", "store to null",
+                  "reference binding to null", "out of bounds", "shift exponent", "left shift of",
+                  "signed integer overflow", "applying non-zero offset")
+# Deliberately not fatal: "null pointer passed as argument ... declared to never be null" (memcpy(NULL, NULL, 0) in
+# Array::extend/copy of empty arrays) and "applying zero offset to null pointer": benign on every supported target.
 
 
 class Driver:
@@ -297,6 +298,9 @@ class Ctx:
         if self.ub_is_fatal:
             ub = self.driver.fatal_ub()
             if ub:
+                # UBSan reports each source location once per process: restart so that shrinking and
+                # replay see the report again
+                self.driver.stop()
                 raise Violation("undefined behaviour: %s %s" % ub[0], case=case, script=lines)
         return outs
 
@@ -422,6 +426,30 @@ def run_check(modname, prop_id, level, rule, assumptions, tier, seed, replay_pat
         finally:
             ctx.close()
 
+    # replay tier: every stored witness (fixed findings, earlier catches) is re-executed first
+    regress = []
+    rdir = os.path.join(VERIF, "replays", prop_id)
+    known_witness = {os.path.join(VERIF, k["witness"]) for k in known}
+    if os.path.isdir(rdir):
+        ctx = Ctx(prop_id, tier, seed, 0, 1, build_dir, known)
+        try:
+            for f in sorted(os.listdir(rdir)):
+                fp = os.path.join(rdir, f)
+                if not f.endswith(".json") or fp in known_witness:
+                    continue
+                with open(fp) as fh:
+                    rec = json.load(fh)
+                try:
+                    mod.replay(ctx, rec.get("test", ""), rec["case"])
+                    ctx.stats.count("replayed_witnesses")
+                except Violation as v:
+                    regress.append((fp, v.what))
+        finally:
+            rstats = ctx.stats
+            ctx.close()
+    else:
+        rstats = Stats()
+
     args = [(modname, prop_id, tier, seed, w, nworkers, build_dir, known) for w in range(nworkers)]
     if nworkers == 1:
         results = [_worker(args[0])]
@@ -429,6 +457,7 @@ def run_check(modname, prop_id, level, rule, assumptions, tier, seed, replay_pat
         with mp.get_context("fork").Pool(nworkers) as pool:
             results = pool.map(_worker, args)
     total = Stats()
+    total.merge(rstats)
     ubsan = {}
     crashes = 0
     violations = []
@@ -468,10 +497,10 @@ def run_check(modname, prop_id, level, rule, assumptions, tier, seed, replay_pat
             ctx.close()
 
     # distinct violations by (test, what-prefix)
-    out_paths = []
+    out_paths = list(regress)
     seen = set()
     for v in violations:
-        key = (v["test"], v["what"][:80])
+        key = v["test"]
         if key in seen:
             continue
         seen.add(key)
